@@ -29,6 +29,7 @@ DESIGN.md section 5, C13.
 """
 import array
 import collections
+import errno
 import os
 import random
 import threading
@@ -515,6 +516,19 @@ def _forms_handle(ex, rx, tx, c):
     elif state == 'closed-w':
         tx.close()
         victim = tx
+    elif state in ('closefail-r', 'closefail-w'):
+        # close(2) itself reports an error (EIO): the handle is closed all
+        # the same and rejects every later call before touching the kernel
+        victim = rx if state == 'closefail-r' else tx
+        ex.world.close_faults = {victim.fileno(): errno.EIO}
+        try:
+            victim.close()
+        except OSError:
+            pass
+        if not victim.closed:
+            return None, ('close() on a %s handle whose kernel close '
+                          'reported EIO left the handle open (closed=False)'
+                          % c['kind'])
     elif state == 'wrongdir-r':          # read-only handle used for sending
         victim = rx
     elif state == 'wrongdir-w':          # write-only handle used to receive
@@ -536,9 +550,9 @@ def _forms_handle(ex, rx, tx, c):
                           op, state, c['kind'], err, ex.attempts(),
                           list(ex.iolog)))
     v = None
-    if state != 'closed-r':
+    if state not in ('closed-r', 'closefail-r'):
         # the stream was not disturbed
-        if state != 'closed-w':
+        if state not in ('closed-w', 'closefail-w'):
             tx.close()
         v = _after(rx, [pend])
     return ('handle', state, op, err), v
@@ -647,6 +661,11 @@ def forms_cases(tier, known=()):
             if kind == 'pipe':
                 out.append(dict(what='handle', kind=kind,
                                 state='wrongdir-w', op=op))
+        if True:
+            for op in _SEND_OPS + _RECV_OPS:
+                for st in ('closefail-r', 'closefail-w'):
+                    out.append(dict(what='handle', kind=kind, state=st,
+                                    op=op, model_only=True))
         # a closed handle rejects the other direction's calls too
         for op in _RECV_OPS:
             out.append(dict(what='handle', kind=kind, state='closed-w',
@@ -680,7 +699,7 @@ def _job_forms(cases):
             break
         if len(samples) < 2:
             samples.append({'case': c, 'outcome': repr(oc)})
-        if _size_of(c) <= 32772:
+        if _size_of(c) <= 32772 and not c.get('model_only'):
             # conformance: the same case, same oracle, on the real kernel
             # objects (every read/write *attempt* on our fds is logged there)
             roc, rv = _forms_case(c, real=True)
